@@ -489,6 +489,7 @@ impl<R: Read, TSpec> TagIterator<R, TSpec>
         let mut position = 0;
         let mut nested = 0;
         loop {
+            #[cfg(feature = "verif-hooks")] crate::verif::tick();
             if position >= self.emission_queue.len() {
                 self.read_next();
 
